@@ -615,8 +615,28 @@ def exhaustive_seqmonitors():
                                                                 'n' if extra is None else str(extra), fb), ops))
     return segs
 
-EXHAUSTIVE = {'C03': [exhaustive_bounds], 'C04': [exhaustive_teardown], 'C05': [exhaustive_sequences, exhaustive_seqmonitors],
-              'C06': [exhaustive_sequences, exhaustive_seqmonitors]}
+def exhaustive_seqdeath():
+    """C06/C05/C14: an entry E (f(1)) IN_SEQUENCE of two sequence objects (both listing orders), optionally behind a predecessor P (f(0))
+    in one of them; every order of {destroy sequence 1, destroy sequence 2, call E (twice), call P}: entries outlive sequence objects,
+    saturate after one of their sequences died, and the surviving sequence's tear-down must list exactly what is still pending"""
+    segs = []
+    for (qa, qb) in ((1, 2), (2, 1)):
+        for pq in (0, 1, 2):
+            for (lo, hi) in ((1, 1), (1, 2)):
+                base = ['d1', 'd2', 'e', 'e'] + (['p'] if pq else [])
+                for perm in sorted(set(itertools.permutations(base))):
+                    ops = ['mock 0', 'seq 1', 'seq 2']
+                    if pq:
+                        ops.append(expect_line(1, 5, 0, p=((1, 0), (0, 0)), retv=100, lo=1, hi=1, q=(pq, 0)))
+                    ops.append(expect_line(2, 7, 0, p=((1, 1), (0, 0)), retv=200, lo=lo, hi=hi, q=(qa, qb)))
+                    for ev in perm:
+                        ops.append({'d1': 'dseq 1', 'd2': 'dseq 2', 'e': 'call 0 1 1 0', 'p': 'call 0 1 0 0'}[ev])
+                    ops += ['release 2'] + (['release 1'] if pq else [])
+                    segs.append(('xd-%d%d-p%d-%d%d-%s' % (qa, qb, pq, lo, hi, ''.join(x[0] if x[0] != 'd' else x[1] for x in perm)), ops))
+    return segs
+
+EXHAUSTIVE = {'C03': [exhaustive_bounds], 'C04': [exhaustive_teardown], 'C05': [exhaustive_sequences, exhaustive_seqmonitors, exhaustive_seqdeath],
+              'C06': [exhaustive_sequences, exhaustive_seqmonitors, exhaustive_seqdeath]}
 
 def exhaustive_selection():
     """C02: (A) ties - two sequences, 1..2 optional predecessors in each, one candidate per sequence matching the same call
@@ -799,5 +819,5 @@ def exhaustive_tracers():
                 segs.append(('xtr-%s-%s' % (''.join(map(str, kinds)), ''.join(map(str, perm))), ops))
     return segs
 
-EXHAUSTIVE.update({'C07': [exhaustive_forbid], 'C08': [exhaustive_clauses], 'C13': [exhaustive_monitors, exhaustive_seqmonitors], 'C14': [exhaustive_monitors],
+EXHAUSTIVE.update({'C07': [exhaustive_forbid], 'C08': [exhaustive_clauses], 'C13': [exhaustive_monitors, exhaustive_seqmonitors], 'C14': [exhaustive_monitors, exhaustive_seqdeath],
                    'C15': [exhaustive_reports, exhaustive_forbid, exhaustive_seqmonitors], 'C16': [exhaustive_reports], 'C17': [exhaustive_tracers]})
